@@ -231,7 +231,7 @@ def r1_optional_fields(rep, src):
                             rep.fail('C12.R1', fn.site, what + ' in the table comprehension', '%s is evaluated for every entry of _multivalued_fields without a preceding '
                                      '`%s in self`: an absent optional structured field raises KeyError (dump fails)' % (what, kv),
                                      where='%s:%d' % (fn.module.relpath, comp.lineno))
-    if n_loops < 3:
+    if n_loops < 1:
         raise AnalysisError('only %d loops over _multivalued_fields found' % n_loops)
 
 
@@ -802,6 +802,104 @@ def _size_behavior_default(rep, src, m):
         rep.ok('C12.R4', site, 'the setting is per object', "assignment on one object is read back there and leaves other objects at %r" % (v0,))
 
 
+def _width_scenarios(rep, src, m, cname, modes):
+    """<class>._fixed_field_lengths() interpreted on paragraphs whose structured fields are absent / a list of records / one record
+    (a mapping) / the empty list: which widths are registered, and that none of these contents makes the computation raise.
+    The paragraph's own item protocol (`key in self`, `self[key]`) is the scenario's content; everything else is the library's code."""
+    from .. import heap as H
+    pw = m.method(cname, '_fixed_field_lengths')
+    if pw is None:
+        raise AnalysisError('%s._fixed_field_lengths not found' % cname)
+    rep.saw_func(pw)
+    table = m.consts.get(cname, {}).get('_multivalued_fields')
+    if not isinstance(table, dict) or not table:
+        raise AnalysisError('%s._multivalued_fields is not a table of constants' % cname)
+    with_size = [k for k, v in table.items() if 'size' in v]
+    if not with_size:
+        raise AnalysisError('%s._multivalued_fields: no field with a size column' % cname)
+    k0 = with_size[0]
+    for md in (modes or (None,)):
+        for scen in ('absent', 'list', 'single', 'empty') + (('two',) if len(with_size) > 1 else ()):
+            content = {}
+
+            def getitem(it, args, kw):
+                key = args[1]
+                key = key.concrete() if hasattr(key, 'concrete') else key
+                if key not in content:
+                    raise H.Raised('KeyError', it.h.version, kw.get('lineno', 0))
+                return content[key]
+
+            def contains(it, args, kw):
+                return args[1] in content
+            heap = H.Heap(m, hooks={'__getitem__': getitem, '__contains__': contains, '.keys': lambda it, args, kw: heap.new_list(list(content))})
+            it = H.Interp(heap)
+            obj = heap.alloc(cname, {})
+
+            def rec(size):
+                d = heap.new_dict()
+                for f_ in table[k0]:
+                    heap.dict_set(d, f_, size if f_ == 'size' else 'x')
+                return d
+            if scen == 'list':
+                content[k0] = heap.new_list([rec('9'), rec('10000')])
+            elif scen == 'single':
+                content[k0] = rec('5')
+            elif scen == 'empty':
+                content[k0] = heap.new_list([])
+            elif scen == 'two':
+                content[with_size[0]] = heap.new_list([rec('9'), rec('10000')])
+                content[with_size[-1]] = heap.new_list([rec('123')])
+            what = {'two': 'two fields, sizes up to 10000 in %s and 123 in %s' % (with_size[0], with_size[-1]),
+                    'absent': 'no structured field present', 'list': 'records with sizes 9 and 10000', 'single': 'a field holding one record (a mapping)',
+                    'empty': 'a field holding the empty list'}[scen] + (' [%s]' % md if md else '')
+            rid = 'C12.R1' if scen == 'absent' else 'C12.R4'
+            try:
+                if md is not None and md != 'apt-ftparchive':
+                    it.store_attr(obj, 'size_field_behavior', md, cname)
+                r = it.call(H.Closure(pw.node, {}, obj, pw.cls), [])
+            except H.Raised as x:
+                rep.fail(rid, pw.site, what, {
+                    'absent': 'raises %s (line %d): an absent optional structured field makes the dump fail',
+                    'list': 'raises %s (line %d) for a list of records', 'two': 'raises %s (line %d) for two lists of records',
+                    'single': 'raises %s (line %d): the width of the size column is computed by iterating the value as a list of records; one record (a mapping: '
+                              '"MD5Sum: <sum> <size> <name>" on the field line) is iterated key by key and the dump fails',
+                    'empty': 'raises %s (line %d) when the field holds no record: a paragraph whose structured field is the empty list cannot be dumped'}[scen]
+                    % (x.exc, x.lineno), where=pw.where)
+                continue
+            got = {}
+            if isinstance(r, H.Ref) and heap.objs[r.name]['__class__'] == 'dict':
+                for k_, v_ in heap.objs[r.name]['entries']:
+                    got[k_] = dict(heap.objs[v_.name]['entries']) if isinstance(v_, H.Ref) and heap.objs[v_.name]['__class__'] == 'dict' else v_
+            else:
+                rep.fail(rid, pw.site, what, 'returns %r, not a table of widths' % (r,), where=pw.where)
+                continue
+            if scen == 'absent':
+                if got:
+                    rep.fail(rid, pw.site, what, 'registers widths %r for fields that are not there' % (got,), where=pw.where)
+                else:
+                    rep.ok(rid, pw.site, what, 'no width registered, nothing raised')
+            elif scen == 'list':
+                want = 16 if md == 'apt-ftparchive' else 5
+                if got.get(k0) == {'size': want} and set(got) == {k0}:
+                    rep.ok(rid, pw.site, what, 'width %d for the size column of %s' % (want, k0))
+                else:
+                    rep.fail(rid, pw.site, what, 'registers %r; expected {%r: {"size": %d}} (%s)' % (
+                        got, k0, want, 'fixed width of apt-ftparchive' if want == 16 else 'the longest size present'), where=pw.where)
+            elif scen == 'two':
+                w1, w2 = (16, 16) if md == 'apt-ftparchive' else (5, 3)
+                if got == {with_size[0]: {'size': w1}, with_size[-1]: {'size': w2}}:
+                    rep.ok(rid, pw.site, what, 'widths %d and %d: each field has its own' % (w1, w2))
+                else:
+                    rep.fail(rid, pw.site, what, 'registers %r; expected width %d for %s and %d for %s (the longest size present in that field)' % (
+                        got, w1, with_size[0], w2, with_size[-1]), where=pw.where)
+            else:
+                extra = {k_: v_ for k_, v_ in got.items() if k_ != k0}
+                if extra:
+                    rep.fail(rid, pw.site, what, 'registers widths %r for fields that are not there' % (extra,), where=pw.where)
+                else:
+                    rep.ok(rid, pw.site, what, 'nothing raised (%s)' % ('width %r' % (got[k0],) if k0 in got else 'no width registered'))
+
+
 def r4_size_column(rep, src):
     m = src.mod(MOD)
     _size_behavior_default(rep, src, m)
@@ -937,30 +1035,7 @@ def r4_size_column(rep, src):
                      'cannot be dumped' % norm(c)[:60], where='%s:%d' % (f.module.relpath, c.lineno))
         else:
             rep.ok('C12.R4', f.site, 'width of an empty record list', 'no maximum of a possibly empty sequence without default')
-        pw = m.method(cname, '_fixed_field_lengths')
-        gw = cfg.CFG(pw.node)
-        wcalls = [c for c in ast.walk(pw.node) if isinstance(c, ast.Call) and isinstance(c.func, ast.Attribute) and c.func.attr == '_get_size_field_length']
-        if not wcalls:
-            raise AnalysisError('%s: no call of _get_size_field_length' % pw.site)
-        single_tests = [n_ for n_ in gw.nodes if n_.kind == 'test' and (("hasattr(" in norm(n_.ast) and "'keys'" in norm(n_.ast)) or 'isinstance(' in norm(n_.ast))]
-        in_comp = all(any(isinstance(a_, (ast.DictComp, ast.ListComp, ast.GeneratorExp, ast.SetComp)) and any(
-            ("hasattr(" in norm(c_) and "'keys'" in norm(c_)) or 'isinstance(' in norm(c_) for gen in a_.generators for c_ in gen.ifs) for a_ in _anc(c)) for c in wcalls)
-        handles_mapping = in_comp or any(("hasattr(" in norm(t_) and "'keys'" in norm(t_)) or 'isinstance(' in norm(t_) for t_ in ast.walk(fin) if isinstance(t_, (ast.If, ast.IfExp)) for t_ in [t_.test])
-        okw = all(any(gw.dominates(t_.id, gw.node_for(c).id) for t_ in single_tests) for c in wcalls) or handles_mapping
-        if okw:
-            rep.ok('C12.R4', pw.site, 'a field holding a single record gets no column width', 'the width computation is skipped for (or handles) a mapping value')
-        else:
-            rep.fail('C12.R4', pw.site, 'a field holding a single record gets no column width', 'the width of the size column is computed by iterating the value of every '
-                     'structured field as a list of records; a field that holds one record (a mapping: "MD5Sum: <sum> <size> <name>" on the field line) is iterated key by key '
-                     'and the dump raises TypeError (the sibling class tests hasattr(value, "keys") first)', where=pw.where)
-        # _fixed_field_lengths stores it under "size" for the present keys
-        p = m.method(cname, '_fixed_field_lengths')
-        dicts = [d for d in ast.walk(p.node) if isinstance(d, ast.Dict) and len(d.keys) == 1 and isinstance(d.keys[0], ast.Constant) and d.keys[0].value == 'size']
-        named = {norm(a_.targets[0]) for a_ in ast.walk(p.node) if isinstance(a_, ast.Assign) and len(a_.targets) == 1 and '_get_size_field_length(' in norm(a_.value)}
-        if dicts and all('_get_size_field_length(' in norm(d.values[0]) or norm(d.values[0]) in named for d in dicts):
-            rep.ok('C12.R4', p.site, 'width applies to the size column', norm(dicts[0])[:60], nontrivial=False)
-        else:
-            rep.fail('C12.R4', p.site, 'width applies to the size column', 'the computed width is not registered for the "size" sub-field', where=p.where)
+        _width_scenarios(rep, src, m, cname, modes)
     # the widths are recomputed from the current content on every dump (no memo that later edits would leave stale)
     common.check_no_hidden_state(rep, src, 'C12.R4', [MOD + ':PdiffIndex._fixed_field_lengths', MOD + ':PdiffIndex._get_size_field_length',
                                                      MOD + ':Release._fixed_field_lengths', MOD + ':Release._get_size_field_length',
